@@ -200,6 +200,8 @@ structure Params where
   stampRuns : Bool := true
   /-- D18 repair: a `rerun` record is written before a function target's body runs -/
   marker : Bool := true
+  /-- D28 repair: a record that lists more dependencies than the target has now is out of date -/
+  depCount : Bool := true
 
 /-- `fileSum`: a missing file has the empty sum -/
 def srcData (P : Params) (v : SrcVal) : Data :=
@@ -291,10 +293,13 @@ def plan (P : Params) (t : Tree) (o : Opts) (s : BSt) (l : Label) (d : Def) : Pl
   | some x => .depFailed (match s.memo x with | some m => m.unknown | none => false)
   | none =>
     let depData := deps.map fun x => (x, memoData s x)
-    let depsUpToDate := deps.all fun x =>
+    let depsUpToDate := (deps.all fun x =>
       match info.deps.lookup x, s.memo x with
       | some st, some m => !m.changed && st == m.data
-      | _, _ => false
+      | _, _ => false) &&
+      -- D28 repair: a dependency the target no longer has is a change as well (every present dependency is listed, so
+      -- the record lists a former one exactly if it lists more than there are now)
+      (!P.depCount || info.deps.length == deps.length)
     if !o.always && depsUpToDate && upToDate P s.w d info && !info.rerun then .skip info
     else if o.dry then .dry info
     else .run info depData
@@ -440,6 +445,44 @@ def applyOptions (_prev : RunFlags) : Option RunFlags → RunFlags
 
 /-- the options a build of the model runs with, given the project's flags -/
 def optsOf (fl : RunFlags) (fails : Label → Bool) : Opts := ⟨fl.always, fl.dry, fails⟩
+
+/-! ## keys of the persisted dependencies map (`depStamps`, D27 repair) -/
+
+/-- a label as `escapeLabel` scans it (Go's `utf8.DecodeRuneInString`): a valid rune other than U+FFFD, a genuine
+U+FFFD, or a byte that is not part of a valid UTF-8 sequence -/
+inductive KeyItem
+  | ch (c : Nat)
+  | repl
+  | raw (b : UInt8)
+deriving DecidableEq, Repr
+
+def hexDigitLower (n : Nat) : Nat := if n < 10 then 48 + n else 87 + n
+
+/-- `escapeLabel`, as code points: what `encoding/json` can carry unchanged -/
+def escapeKey : List KeyItem → List Nat
+  | [] => []
+  | .ch c :: rest => c :: escapeKey rest
+  | .repl :: rest => 0xFFFD :: 45 :: 45 :: escapeKey rest
+  | .raw b :: rest => 0xFFFD :: hexDigitLower (b.toNat / 16) :: hexDigitLower (b.toNat % 16) :: escapeKey rest
+
+def hexValLower (c : Nat) : Option Nat :=
+  if 48 ≤ c ∧ c ≤ 57 then some (c - 48)
+  else if 97 ≤ c ∧ c ≤ 102 then some (c - 87)
+  else if 65 ≤ c ∧ c ≤ 70 then some (c - 55)
+  else none
+
+/-- `unescapeLabel` -/
+def unescapeKey : List Nat → List KeyItem
+  | [] => []
+  | [c] => [if c = 0xFFFD then .repl else .ch c]
+  | [c, d] => (if c = 0xFFFD then KeyItem.repl else .ch c) :: unescapeKey [d]
+  | c :: a :: b :: rest =>
+    if c = 0xFFFD then
+      if a = 45 ∧ b = 45 then .repl :: unescapeKey rest
+      else match hexValLower a, hexValLower b with
+        | some h, some l => .raw (UInt8.ofNat (h * 16 + l)) :: unescapeKey rest
+        | _, _ => .repl :: unescapeKey (a :: b :: rest)
+    else .ch c :: unescapeKey (a :: b :: rest)
 
 /-! ## record paths (`targetInfoPath`) -/
 
